@@ -7,7 +7,7 @@ the per-attempt invocation log.
 
 ```
 c18pipe <fixes> <entry> <flags> <udReq> <builtin> <wrappers> <getBody> <transport> <clientResp> <reqResp> <retry> [<outFails>]
-  fixes      3 bits  keepErr nilGuard digestRebind          ("111" = repaired code)
+  fixes      3 or 4 bits  keepErr nilGuard digestRebind [digestSave]   ("1111" = repaired code)
   entry      d | s | v | m                                   (Do, Send, verb helper, Must*)
   flags      7 or 8 bits  builderErr unreplayable successTarget errorTarget commonErr autoRead hook [save]
              (save = Request.SetOutput / SetOutputFile)
@@ -121,18 +121,23 @@ def parseStack12 : List String → Option (Fixes × Stack)
           parseStages parseWAct wr, parseAtts parseBool gb, parseAtts parseTOut tr,
           parseStages parseRespAct cr, parseStages parseRAct rr, parseRetry rt,
           (if ofl == "-" then some [] else parseBits ofl) with
-    | some [f1, f2, f3], some en, some (b1 :: b2 :: b3 :: b4 :: b5 :: b6 :: b7 :: more), some ud, some bi, some wr, some gb, some tr,
+    | some (f1 :: f2 :: f3 :: fmore), some en, some (b1 :: b2 :: b3 :: b4 :: b5 :: b6 :: b7 :: more), some ud, some bi, some wr, some gb, some tr,
       some cr, some rr, some rt, some ofl =>
       let save : Option Bool := match more with
         | [] => some false
         | [b] => some b
         | _ => none
-      save.map fun save =>
+      let f4 : Option Bool := match fmore with
+        | [] => some true
+        | [b] => some b
+        | _ => none
+      (save.bind fun save => f4.map fun f4 => (save, f4)).map fun (save, f4) =>
         (⟨f1, f2, f3⟩,
           { entry := en, builderErr := b1, unreplayable := b2, successTarget := b3, errorTarget := b4,
             commonErr := b5, autoRead := b6, hook := b7, save := save, udReq := ud, builtin := bi, wrappers := wr,
             getBodyFails := gb, transport := tr, clientResp := cr, reqResp := rr, maxRetries := rt.n,
-            unbounded := rt.unbounded, fuel := rt.fuel, conds := rt.conds, ctxDone := rt.ctxDone, outFails := ofl })
+            unbounded := rt.unbounded, fuel := rt.fuel, conds := rt.conds, ctxDone := rt.ctxDone, outFails := ofl,
+            fixDigestSave := f4 })
     | _, _, _, _, _, _, _, _, _, _, _, _ => none
   | _ => none
 
